@@ -176,6 +176,28 @@ def run_case(case, workdir):
                 nfiles = len([f for f in os.listdir(os.path.join(out, "Level_0")) if f.startswith("Cell_D")])
                 rec.outcome("files=%d" % nfiles)
             shutil.rmtree(out, ignore_errors=True)
+    # the command line entry point (plotfile format) must write what the API writes
+    if case["kind"] == "mesh":
+        import amr_kitchen.mandoline.cli as mcli
+        from ..common import run_cli
+        from ..refmodel import tree_digest as _td
+        m_ = positions[len(positions) // 3]
+        for limit, serial in ((None, False), (0, True)):
+            o1, o2 = os.path.join(workdir, "cli_plt"), os.path.join(workdir, "api_plt")
+            argv = ["mandoline", path, "-f", "plotfile", "-o", o1, "-V", "0", "-n", str(n), "-p", repr(sm.pos_of(m_)), "-v", "G", "A"] \
+                + (["-L", str(limit)] if limit is not None else []) + (["-s"] if serial else [])
+            with vpool.controlled():
+                with poisoned(MODS, 0):
+                    st, val = run_cli(mcli.main, argv)
+                    st2, val2 = call(lambda: Mandoline(path, fields=["G", "A"], limit_level=limit, serial=serial, verbose=0).slice(
+                        normal=n, pos=sm.pos_of(m_), outfile=o2, fformat="plotfile"))
+            rec.exe([dh, "cli", limit, serial])
+            if st != "ok":
+                rec.fail("cli_failed", {"argv": argv}, "%s %s" % (st, val))
+            elif st2 == "ok" and _td(o1) != _td(o2):
+                rec.fail("cli_differs_from_api", {"argv": argv}, "the mandoline command wrote another tree than Mandoline(...).slice()")
+            shutil.rmtree(o1, ignore_errors=True)
+            shutil.rmtree(o2, ignore_errors=True)
     # histories on ONE Mandoline object: several plotfile-format slices, each compared with a fresh object's output
     if case["kind"] == "mesh":
         from ..refmodel import tree_digest
